@@ -5,7 +5,7 @@ import os
 from .model import AnalysisError
 from .report import VERIF
 from .callgraph import closure
-from .rules import r1_resolve, r2_none, r3_ctor, r9_purity
+from .rules import r1_resolve, r2_none, r3_ctor, r9_purity, r4_predicates, r5_arghandler
 
 _anch = None
 
@@ -94,3 +94,30 @@ def c17(run):
 
 
 CHECKS['C17'] = c17
+
+
+def c07(run):
+    prog = run.prog
+    r4_predicates.run_r4(run)
+    r5_arghandler.run_r5(run)
+    r3_ctor.run_r3(run, classes=['SO2', 'SE2', 'SO3', 'SE3', 'Quaternion', 'UnitQuaternion', 'Twist2', 'Twist3',
+                                 'Plucker', 'UnitDualQuaternion', 'DualQuaternion'])
+    fs = scope(run, 'C07')
+    r2_none.run_r2(run, fs)
+    r1_resolve.run_r1(run, fs)
+    run.floor('R4', 40)
+    run.floor('R5', 15)
+    run.floor('R3', 11)
+    run.explanation = ('Rules R4 (predicate atoms: orthogonality residual, sign of det(R) itself, last row, unit/zero/'
+                       'skew definitions, class isvalid delegation), R5 (every store into data in arghandler passes '
+                       '_import and a None test, or a class test; _import returns the value only under isvalid; '
+                       'constructors forward check), R3 (every normal constructor exit has assigned the value state) '
+                       'and R2/R1 over the anchored functions. Together: with check=True there is no path from a '
+                       'constructor argument to data that bypasses a predicate containing the orthogonality, '
+                       'determinant-sign and last-row atoms, and no path stores None or leaves an empty object. The '
+                       'numeric width of the tolerance band is not decided.')
+    run.trust(*STATIC_TRUST)
+    run.assume('validity of values produced by the library itself (check=False sites) is the subject of C01, not C07')
+
+
+CHECKS['C07'] = c07
